@@ -206,6 +206,16 @@ theorem C17_apply_spread {α β : Type} (k : Kind) (xs : List Atom) (f : List α
     rw [← hx]
     exact spread_filter _ _ (Kind.isStart_zero k xs (by simp [hx])) v
 
+/-- **In-place edits are local and nothing is remembered**: the starts of an array whose atom `i`
+was overwritten are a function of the new content only (the model is stateless), and they can
+differ from the old starts only at atoms `i` and `i + 1`. -/
+theorem C17_edit_local (k : Kind) (xs : List Atom) (i : Nat) (a : Atom) (j : Nat)
+    (h1 : j ≠ i) (h2 : j ≠ i + 1) :
+    (j ∈ k.starts (xs.set i a) false ↔ j ∈ k.starts xs false) := by
+  rw [(C17_starts_exact k (xs.set i a)).2.1 j, (C17_starts_exact k xs).2.1 j]
+  show C17.isStart k.boundary (xs.set i a) j = true ↔ C17.isStart k.boundary xs j = true
+  rw [isStart_set_local k.boundary xs i a j h1 h2]
+
 /-! ## molecules -/
 
 /-- **`find_connected`** — the recursive DFS of `_find_connected`, with recursion depth at
@@ -285,6 +295,7 @@ private def ex : List Atom :=
 
 example : residueStarts ex true = [0, 2, 3, 4, 5, 6] ∧ chainStarts ex true = [0, 3, 4, 6] := by decide
 example : residueStarts [] true = [0] ∧ residueStarts [] false = [] := by decide
+example : residueStarts (ex.set 1 ⟨0, 2, 0, 0⟩) false = [0, 1, 3, 4, 5] ∧ residueStarts ex false = [0, 2, 3, 4, 5] := by decide
 example : segIter (chainStarts ex true) [10, 11, 12, 13, 14, 15] = [[10, 11, 12], [13], [14, 15]] := by decide
 example : segMasks (chainStarts ex true) [4] = .ok [[false, false, false, false, true, true]] := by decide
 example : segStartsFor (residueStarts ex true) [1, 5] = .ok [0, 5] ∧
